@@ -228,7 +228,10 @@ func fieldPath(path string) []string {
 	return strings.Split(path, ".")
 }
 
-func unmarshalJsonFile(path string, i interface{}) (err error) {
+// unmarshalJsonFile decodes the JSON file at path into i. Whether the file
+// is compressed is told by the caller (the schema knows it): the name of the
+// file cannot tell, a custom extension may itself end with .gz
+func unmarshalJsonFile(path string, i interface{}, compressed bool) (err error) {
 	var data []byte
 	var in *os.File
 	var r io.Reader
@@ -239,7 +242,7 @@ func unmarshalJsonFile(path string, i interface{}) (err error) {
 	defer in.Close()
 
 	r = in
-	if strings.HasSuffix(path, compressedExtension) {
+	if compressed {
 		if r, err = gzip.NewReader(in); err != nil {
 			return
 		}
